@@ -810,6 +810,7 @@ pub fn eval_case(c: &Case13) -> CaseOutcome {
             Status::Timeout | Status::SpawnError(_) => CaseOutcome::Inconclusive(format!("{:?}", out.status)),
             Status::Signal(sig) => CaseOutcome::Fail { key: "c13|recursion|killed-by-signal".into(), what: format!("use {} is recursive; the emulator was killed by signal {} instead of rejecting it", ui, sig), replay: creplay },
             Status::OutputCap => CaseOutcome::Fail { key: "c13|recursion|runaway-output".into(), what: "recursive macro use produced runaway output".into(), replay: creplay },
+            Status::Blocked => CaseOutcome::Fail { key: "c13|recursion|blocked".into(), what: "recursive macro use: the emulator went to sleep for good".into(), replay: creplay },
             Status::Exit(code) => {
                 let so = out.out_str();
                 if *code != 0 || out.panicked() {
